@@ -4,6 +4,6 @@ From EV Require Import Res Catalogue CatalogueSpec.
 Import ListNotations.
 Open Scope Z_scope.
 
-Theorem c15_smoke : case_ok (mkCfg true true) [OCreateDF 0 [100]; OCreate 0 [100] [97] 0 [1]; ORename 0 [100] [([97],[98])]] = true.
+Theorem c15_smoke : case_ok (mkCfg true true true) [OCreateDF 0 [100]; OCreate 0 [100] [97] 0 [1]; ORename 0 [100] [([97],[98])]] = true.
 Proof. vm_compute. reflexivity. Qed.
 Print Assumptions c15_smoke.
